@@ -285,3 +285,29 @@ package reconciling
 //@ ensures isnil(result1) == (result0 != nil)
 //@ ensures implies(result0 != nil, txt.valid(result0.AllSerialised))
 //@ loop 1 invariant true
+
+// ---------------------------------------------------------------------------------------------
+// creator.go — the creators' composition (property C11): the reconciler for an existing record targets the first
+// record of the given date; its style is what `elect` returns for the record's own style (`determine` of that very
+// record and block) as base and all records of the file as electorate - so every style property is decided
+// (explicit): by the record itself where it exhibits one, by the file's majority otherwise. (Run-time safety and the
+// callees' preconditions inside the closures are not obligations here: `cutsonly`.)
+//@ func NewReconcilerAtRecord$1
+//@ requires len(rs) == len(bs) && typeis(atDate, *klog.date)
+//@ requires forall(i, 0, len(rs), typeis(rs[i], *klog.record) && typeis(rs[i].(*klog.record).date, *klog.date) && typeis(bs[i], *txt.block))
+//@ noframe
+//@ cutsonly
+//@ before determine assert arg0 == rs[index] && arg1 == bs[index]
+//@ before elect assert same(arg1, rs) && same(arg2, bs)
+//@ ensures implies(result != nil, 0 <= result.recordPointer && result.recordPointer < len(rs) && result.Record == rs[result.recordPointer] && klog.ddn(rs[result.recordPointer].(*klog.record).date) == klog.ddn(atDate))
+//@ ensures implies(result != nil, forall(i, 0, result.recordPointer, klog.ddn(rs[i].(*klog.record).date) != klog.ddn(atDate)))
+//@ ensures implies(result == nil, forall(i, 0, len(rs), klog.ddn(rs[i].(*klog.record).date) != klog.ddn(atDate)))
+//@ ensures implies(result != nil, result.style != nil && result.style.lineEnding.isExplicit && result.style.indentation.isExplicit && result.style.dateUseDashes.isExplicit && result.style.timeUse24HourClock.isExplicit && result.style.rangesUseSpacesAroundDash.isExplicit && result.style.openRangeAdditionalPlaceholderChars.isExplicit)
+//@ loop 1 invariant index == -1 && forall(i, 0, rangeindex+1, klog.ddn(rs[i].(*klog.record).date) != klog.ddn(atDate))
+
+// A new record's style is elected by all records of the file, from the defaults.
+//@ func NewReconcilerForNewRecord$1
+//@ noframe
+//@ cutsonly
+//@ before elect assert same(arg1, rs) && same(arg2, bs)
+//@ ensures true
